@@ -16,7 +16,7 @@ TARGET = dict(
                  "real margins of alloc_fourcc managers with 2-pixel macropixels and of default (-1) margins are not pinned by the documentation: no refusal demanded for extensions there"],
     execs=[dict(name="pic", harness="harness/C19_pic.c", repo=LIBUPIPE, engine=MEMFIX, share=0.75),
            dict(name="sound", harness="harness/C19_sound.c", repo=LIBUPIPE, engine=MEMFIX, share=0.25)],
-    quick=dict(cases=40000, budget=35), thorough=dict(cases=900000, budget=420),
+    quick=dict(cases=60000, budget=40), thorough=dict(cases=900000, budget=270),
 )
 META = dict(
     technique="model-based property testing (rapidcheck tapes -> stateful C executors) with exact allocation spans from a counting umem, ownership stamps and position-coded content under ASan",
